@@ -16,10 +16,11 @@ for s in m['detected_by']:
     for c in re.findall(r'C\d\d', s.split('(')[0]):
         if c not in ids: ids.append(c)
 print(' '.join(ids[:2]))")
+  tier=$(/venv/bin/python -c "import json; print(json.load(open('$d/meta.json')).get('tier','quick'))")
   (cd $repo && git checkout -q -- . && git apply $d/patch.diff) || { echo "$name: PATCH DOES NOT APPLY"; continue; }
   hit=""
   for c in $checks; do
-    /venv/bin/python $here/depsim/check.py $c --tier quick --no-selftest --no-shrink --first > /tmp/regress_$name.$c.out 2>&1; rc=$?
+    /venv/bin/python $here/depsim/check.py $c --tier $tier --no-selftest --no-shrink --first > /tmp/regress_$name.$c.out 2>&1; rc=$?
     if [ $rc -eq 1 ]; then hit="$c"; break; fi
   done
   (cd $repo && git checkout -q -- .)
